@@ -130,15 +130,31 @@ def geometry_table(topo, geom):
     return table
 
 
-def tails_for(refdims, rng, tailmaps, nlong=4):
-    tm = tailmaps[tuple(refdims)]
-    short = [v for v in tm.values() if v[2] <= 1]
-    longer = [v for v in tm.values() if v[2] == 2]
-    rng.shuffle(longer)
-    return short + longer[:nlong]
+_tails = {}
 
 
-def seq_case(name, topo, rng, tailmaps, base=None, geom=None, max_elems=10):
+def all_tails(refdims, n):
+    """all chains (abstract) of at most n child / edge items starting at the reference"""
+    key = (tuple(refdims), n)
+    if key not in _tails:
+        out = [[]]
+        if n:
+            for c in ci.children(refdims):
+                out += [[c] + t for t in all_tails(refdims, n - 1)]
+            for e in ci.edges(refdims):
+                out += [[e] + t for t in all_tails(ci.edge_from_ref(refdims, ci.edge_factor(e)), n - 1)]
+        _tails[key] = out
+    return _tails[key]
+
+
+def tails_for(refdims, rng, nlong=4):
+    short = all_tails(refdims, 1)
+    longer = [t for t in all_tails(refdims, 2) if len(t) == 2]
+    longer = rng.sample(longer, min(nlong, len(longer)))
+    return [ci.chain_to_real(t) for t in short + longer]
+
+
+def seq_case(name, topo, rng, base=None, geom=None, max_elems=10):
     refs = [ref_to_dims(r) for r in topo.references]
     seq = topo.transforms
     expr = to_expr(seq, refs)
@@ -151,7 +167,7 @@ def seq_case(name, topo, rng, tailmaps, base=None, geom=None, max_elems=10):
     obs = []
     for i in elems:
         chain = tuple(seq[i])
-        for tail, tmap, tlen in tails_for(refs[i], rng, tailmaps):
+        for tail in tails_for(refs[i], rng):
             rec = dict(i=i, tail=ci.chain_to_abs(tail), ridx=-1, rtail=[])
             try:
                 idx, rest = seq.index_with_tail(chain + tail)
@@ -201,7 +217,7 @@ def derived_topologies(d):
 def base_meshes(tier):
     from nutils import mesh
     out = []
-    for et in ('triangle', 'mixed', 'square'):
+    for et in ('triangle', 'mixed') if tier == 'quick' else ('triangle', 'mixed', 'square'):
         out.append(('unitsquare2-' + et, ) + tuple(mesh.unitsquare(2, et)))
     out.append(('rect3x2p', ) + tuple(mesh.rectilinear([numpy.linspace(0, 3, 4), numpy.linspace(0, 1, 3)], periodic=[0])))
     out.append(('line4', ) + tuple(mesh.rectilinear([numpy.linspace(0, 2, 5)])))
@@ -225,7 +241,7 @@ def tets():
     return ('tets2', d, g)
 
 
-def seq_cases(rep, rng, tailmaps):
+def seq_cases(rep, rng):
     cases = []
     for mname, d, g in base_meshes(rep.tier):
         for name, thunk in derived_topologies(d):
@@ -241,7 +257,7 @@ def seq_cases(rep, rng, tailmaps):
                 rep.skip('trace: topology operation not available ({})'.format(type(e).__name__))
                 continue
             try:
-                cases.append(seq_case(full, topo, rng, tailmaps, base=d, geom=g, max_elems=8 if rep.tier == 'quick' else 16))
+                cases.append(seq_case(full, topo, rng, base=d, geom=g, max_elems=6 if rep.tier == 'quick' else 16))
             except Skip as e:
                 rep.skip('trace: ' + str(e))
     return cases
